@@ -147,3 +147,43 @@ package btree
 //@   requires entry != nil
 //@   modifies nothing
 //@   ensures [C17 C18] true
+
+// ---- slice surgery used by delete/rebalance (C01, C07 locally; C17): exactly one entry / child leaves, the rest keep their order ----
+
+//@ func Tree.deleteEntry
+//@   requires node != nil && 0 <= index && index < len(node.Entries)
+//@   modifies node.Entries, elems(node.Entries)
+//@   ensures [C01 C07 C17] seq(node.Entries) == old(seq(node.Entries))[:index] ++ old(seq(node.Entries))[index+1:]
+
+//@ func Tree.deleteChild
+//@   requires node != nil && 0 <= index
+//@   modifies node.Children, elems(node.Children)
+//@   ensures [C01 C07 C17] index < old(len(node.Children)) ==> seq(node.Children) == old(seq(node.Children))[:index] ++ old(seq(node.Children))[index+1:]
+//@   ensures [C01 C07] index >= old(len(node.Children)) ==> seq(node.Children) == old(seq(node.Children))
+
+//@ -- appendChildren / prependChildren: toNode receives all of fromNode's children (after / before its own), re-parented
+//@ func Tree.appendChildren
+//@   requires fromNode != nil && toNode != nil && fromNode != toNode && (forall i :: 0 <= i && i < len(fromNode.Children) ==> fromNode.Children[i] != nil)
+//@   requires arr(fromNode.Children) != arr(toNode.Children) || len(fromNode.Children) == 0 || len(toNode.Children) == 0
+//@   modifies toNode.Children, elems(toNode.Children)
+//@   modifies each x like toNode where (exists i :: 0 <= i && i < len(old(fromNode.Children)) && old(fromNode.Children)[i] == x) : x.Parent
+//@   ensures [C01 C07 C17] seq(toNode.Children) == old(seq(toNode.Children)) ++ old(seq(fromNode.Children))
+//@   ensures [C01 C07] forall i :: 0 <= i && i < len(fromNode.Children) ==> fromNode.Children[i].Parent == toNode
+
+//@ func Tree.prependChildren
+//@   requires fromNode != nil && toNode != nil && fromNode != toNode && (forall i :: 0 <= i && i < len(fromNode.Children) ==> fromNode.Children[i] != nil)
+//@   modifies toNode.Children
+//@   modifies each x like toNode where (exists i :: 0 <= i && i < len(old(fromNode.Children)) && old(fromNode.Children)[i] == x) : x.Parent
+//@   ensures [C01 C07 C17] seq(toNode.Children) == old(seq(fromNode.Children)) ++ old(seq(toNode.Children))
+//@   ensures [C01 C07] forall i :: 0 <= i && i < len(fromNode.Children) ==> fromNode.Children[i].Parent == toNode
+
+//@ -- siblings are looked up by searching the parent for any key of the node: in range or (nil, -1), never a panic
+//@ func Tree.leftSibling
+//@   requires tree != nil && tree.Comparator != nil && SWO(tree.Comparator, argof(tree.Comparator, 0)) && node != nil && (node.Parent != nil ==> NodeOK(tree, node.Parent))
+//@   modifies nothing
+//@   ensures [C01 C07 C17 C18] (result1 == 0 - 1 ==> result0 == nil) && (result1 != 0 - 1 ==> node.Parent != nil && 0 <= result1 && result1 < len(node.Parent.Children) && result0 == node.Parent.Children[result1])
+
+//@ func Tree.rightSibling
+//@   requires tree != nil && tree.Comparator != nil && SWO(tree.Comparator, argof(tree.Comparator, 0)) && node != nil && (node.Parent != nil ==> NodeOK(tree, node.Parent))
+//@   modifies nothing
+//@   ensures [C01 C07 C17 C18] (result1 == 0 - 1 ==> result0 == nil) && (result1 != 0 - 1 ==> node.Parent != nil && 0 <= result1 && result1 < len(node.Parent.Children) && result0 == node.Parent.Children[result1])
